@@ -185,9 +185,14 @@ def run_check(spec, tier, seed):
         for (sn, r, a, m) in disagreements[:5]:
             st = by_name[sn]
 
+            if a == "hang":
+                # every candidate that still hangs would cost the whole watchdog time: keep it as it is
+                shrunk.append((sn, r, a, m))
+                continue
+
             def still_bad(c, st=st):
-                ia = vlib.run_lines(harness, [c], env=st.harness_env())[0]
-                ma = vlib.run_lines(driver, [c], line_timeout=1800)[0]
+                ia = vlib.run_lines(harness, [c], env=st.harness_env(), line_timeout=20)[0]
+                ma = vlib.run_lines(driver, [c], line_timeout=120)[0]
                 return ia != "bad-op" and ma != "bad-op" and not st.compare(c, ia, ma)
             try:
                 small = vlib.shrink(r, still_bad, budget=120)
